@@ -80,3 +80,19 @@ func (hc *httpCache) VerifAgeBy(seconds int64) {
 		hc.expiredAt -= seconds
 	}
 }
+
+// VerifWithEntryLock runs f while holding the entry's write lock: lets a
+// choreographed schedule queue other operations on the lock in a known order.
+func (hc *httpCache) VerifWithEntryLock(f func()) {
+	hc.mu.Lock()
+	defer hc.mu.Unlock()
+	f()
+}
+
+// VerifWithZoneLock runs f while holding the lock of the shard that key maps to.
+func (d *dispatcher) VerifWithZoneLock(key []byte, f func()) {
+	lru := d.getLRU(key)
+	lru.mu.Lock()
+	defer lru.mu.Unlock()
+	f()
+}
